@@ -185,6 +185,14 @@ func runC15(c *core.Ctx) {
 				x, y, _ := AltClientBuilders[ch.Int(len(AltClientBuilders))](c)
 				w.Stats.Inc("probe-upgrade-to-other-client-type")
 				csX, consX, other = x, y, true
+				switch ch.Int(4) { // mixed pairs: only one half of the payload is of the other kind
+				case 2:
+					consX = cons
+					w.Stats.Inc("probe-upgrade-mixed-foreign-client-state")
+				case 3:
+					csX = cs
+					w.Stats.Inc("probe-upgrade-mixed-foreign-consensus-state")
+				}
 			}
 			oldType, existed := v.clients[name]
 			applied, det := v.submitPrivileged(class, func(auth string) sdk.Msg {
